@@ -587,12 +587,24 @@ def frame_spans(fmt, lines):
             starts.append(i)
             i += int(lines[i + 1]) + 3
     elif fmt == "sdf":
-        starts = [0] + [i + 1 for i, l in enumerate(lines[:-1]) if l == "$$$$\n"]
+        i = 0
+        while i < len(lines):
+            starts.append(i)
+            i = _sdf_end(lines, i)
     elif fmt == "pdb":
         starts = [0] + [i + 1 for i, l in enumerate(lines[:-1]) if l == "END\n"]
     elif fmt == "mol2":
         starts = [i for i, l in enumerate(lines) if l.startswith("# Mol2 file")]
     return starts
+
+
+def _sdf_end(lines, s0):
+    """index after the `$$$$` line of the SDF record starting at s0 (the title is taken by position)"""
+    na, nb = int(lines[s0 + 3][0:3]), int(lines[s0 + 3][3:6])
+    i = s0 + 4 + na + nb
+    while lines[i] != "$$$$\n":
+        i += 1
+    return i + 1
 
 
 def corrupt(rng, fmt, lines):
@@ -661,7 +673,7 @@ def _mode():
 def correspond(ctx):
     rng = ctx.rng
     mode = _mode()
-    nfiles = ctx.n(5, 40)
+    nfiles = ctx.n(14, 60)
     for fmt in LOADERS:
         reqs, outs, nontriv, classes = [], [], [], []
         creqs, couts, cnt, ccls = [], [], [], []
@@ -696,7 +708,7 @@ def correspond(ctx):
                     classes.append("cut/big")
                     ncuts += 1
             # corrupted variants
-            for _ in range(ctx.n(12, 60)):
+            for _ in range(ctx.n(25, 80)):
                 cl, kind = corrupt(rng, fmt, lines)
                 if not ascii_ok(cl):
                     continue
@@ -860,7 +872,7 @@ def impl_dump_trace(fmt, frames, valid, boom, kind):
 def corr_dump(ctx):
     rng = ctx.rng
     reqs, outs, classes = [], [], []
-    for _ in range(ctx.n(60, 600)):
+    for _ in range(ctx.n(250, 2500)):
         fmt = rng.choice(DUMPERS)
         n = rng.choice([0, 1, 1, 2, 3, 4, 6, 10] + ([50] if rng.random() < 0.1 else []))
         frames = [rand_frame(rng, i, fmt) for i in range(n)]
@@ -958,7 +970,7 @@ def impl_fchk(lines, natom):
 def corr_fchk(ctx):
     rng = ctx.rng
     reqs, outs, classes = [], [], []
-    for _ in range(ctx.n(60, 500)):
+    for _ in range(ctx.n(300, 3000)):
         natom = rng.randint(1, 4)
         npt = rng.choice([1, 1, 2, 3, 5])
         prefix = rng.choice(["Opt point", "IRC point"])
@@ -1067,7 +1079,7 @@ def frame_extents(fmt, lines, starts):
         elif fmt == "gromacs":
             out.append((s0, s0 + int(lines[s0 + 1]) + 3))
         elif fmt == "sdf":
-            out.append((s0, next(i for i in range(s0, e0) if lines[i] == "$$$$\n") + 1))
+            out.append((s0, _sdf_end(lines, s0)))
         elif fmt == "pdb":
             ia = next(i for i in range(s0, e0) if lines[i].startswith(("ATOM", "HETATM")))
             ie = next((i for i in range(ia, e0) if lines[i].startswith("END")), None)
@@ -1076,9 +1088,9 @@ def frame_extents(fmt, lines, starts):
             im = next(i for i in range(s0, e0) if lines[i].split()[:1] == ["@<TRIPOS>MOLECULE"])
             w = lines[im + 2].split()
             na, nb = int(w[0]), int(w[1])
-            ia = next(i for i in range(im, e0) if lines[i].split()[:1] == ["@<TRIPOS>ATOM"])
+            ia = next(i for i in range(im + 3, e0) if lines[i].split()[:1] == ["@<TRIPOS>ATOM"])
             end = ia + 1 + na
-            ib = next((i for i in range(ia, e0) if lines[i].split()[:1] == ["@<TRIPOS>BOND"]), None)
+            ib = next((i for i in range(ia + 1 + na, e0) if lines[i].split()[:1] == ["@<TRIPOS>BOND"]), None)
             if ib is not None:
                 end = ib + 1 + nb
             out.append((im, end))
@@ -1138,7 +1150,7 @@ def search(ctx):
     mult = 4 if ctx.escalated else 1
     # 1. dump_many -> load_many == per-frame dump_one -> load_one
     for fmt in DUMPERS:
-        for it in range(ctx.n(25, 300) * mult):
+        for it in range(ctx.n(120, 1200) * mult):
             n = rng.choice([1, 1, 2, 3, 5, 8] + ([50] if rng.random() < 0.06 else []))
             frames = [rand_frame(rng, i, fmt) for i in range(n)]
             r = check_roundtrip(fmt, frames, rng.random() < 0.5)
@@ -1149,7 +1161,7 @@ def search(ctx):
                                       "frames": [[f.title, f.natom] for f in frames]})
     # 2. pulls from the iterable are counted: lazy, exactly once, file opened after the first check
     for fmt in DUMPERS:
-        for it in range(ctx.n(20, 200) * mult):
+        for it in range(ctx.n(100, 1000) * mult):
             n = rng.choice([1, 2, 3, 6])
             boom = rng.random() < 0.4
             frames = [rand_frame(rng, i, fmt) for i in range(n)]
@@ -1162,7 +1174,7 @@ def search(ctx):
                          {"kind": "lazy", "fmt": fmt, "n": n, "boom": boom})
     # 3. generated files: every cut, corruption
     for fmt in LOADERS:
-        for it in range(ctx.n(3, 25) * mult):
+        for it in range(ctx.n(12, 80) * mult):
             nf = rng.choice([1, 2, 3, 4, 6])
             lines, meta, frames = make_file(rng, fmt, nf)
             if frames is not None and not all(_in_domain(fmt, f) for f in frames):
@@ -1209,6 +1221,7 @@ def search(ctx):
             for sig, what, inp in check_cuts_and_corruptions(ctx, fmt, lines, len(starts), p.name, starts=starts):
                 ctx.fail(sig, what, inp)
     search_fchk(ctx)
+    search_fchk_synthetic(ctx)
 
 
 def corpus_starts(fmt, lines):
@@ -1225,7 +1238,11 @@ def corpus_starts(fmt, lines):
             i += int(lines[i + 1]) + 3
         return out
     if fmt == "sdf":
-        return [0] + [i + 1 for i, l in enumerate(lines[:-1]) if l == "$$$$\n" and any(x.strip() for x in lines[i + 1:])]
+        out, i = [], 0
+        while i < len(lines) and any(x.strip() for x in lines[i:]):
+            out.append(i)
+            i = _sdf_end(lines, i)
+        return out
     if fmt == "pdb":
         out, start, found = [], 0, False
         for i, l in enumerate(lines):
@@ -1307,6 +1324,32 @@ def search_fchk(ctx):
                          {"kind": "fchk-cut", "file": name, "k": k})
 
 
+def search_fchk_synthetic(ctx):
+    """synthetic optimisation / IRC files, also with an inconsistent `Number of geometries` field: the counters of
+    the frames must be consistent with the frames actually yielded (never with the announced number)."""
+    rng = ctx.rng
+    for it in range(ctx.n(40, 400) * (4 if ctx.escalated else 1)):
+        natom = rng.randint(1, 4)
+        npt = rng.choice([1, 2, 3, 4])
+        prefix = rng.choice(["Opt point", "IRC point"])
+        pts = []
+        for _ in range(npt):
+            ns = rng.randint(1, 5)
+            announced = ns if rng.random() < 0.6 else max(0, ns + rng.choice([-1, 1, 2]))
+            pts.append((announced, (2 * ns, 3 * natom * ns, 3 * natom * ns)))
+        tags, nwarn, final = impl_fchk(fchk_text(natom, prefix, pts), natom)
+        want = [(ip, npt, st, p[0] // 2) for ip, (_, p) in enumerate(pts) for st in range(p[0] // 2)]
+        got = [tuple(t[:4]) for t in tags]
+        ok = final == "done" and got == want and all(t[4] == 2 * t[2] and t[5] == t[2] for t in tags) \
+            and nwarn == sum(1 for a, p in pts if a != p[0] // 2)
+        ctx.count("search-fchk-synthetic", [natom, prefix, pts], "ok" if ok else "bad",
+                  sample={"natom": natom, "points": pts})
+        if not ok:
+            ctx.fail("load_many:fchk:counters", f"{prefix} file with points {pts}: frames (ipoint, npoint, istep, nstep) "
+                     f"{got[:8]} / {final} / {nwarn} warnings, expected {want[:8]}",
+                     {"kind": "fchk-synthetic", "natom": natom, "prefix": prefix, "pts": pts})
+
+
 def fchk_blocks_ok(lines):
     from iodata import load_many
     from iodata.formats.fchk import _load_fchk_low
@@ -1342,6 +1385,11 @@ def replay(ctx, obj):
         if sig.endswith("partial-frame-no-warning"):
             return final == "done" and bool(got) and not got[-1][3]
         return True
+    if kind == "fchk-synthetic":
+        pts = [(a, tuple(p)) for a, p in inp["pts"]]
+        tags, nwarn, final = impl_fchk(fchk_text(inp["natom"], inp["prefix"], pts), inp["natom"])
+        want = [(ip, len(pts), st, p[0] // 2) for ip, (_, p) in enumerate(pts) for st in range(p[0] // 2)]
+        return not (final == "done" and [tuple(t[:4]) for t in tags] == want)
     if kind == "lazy":
         rng = ctx.rng
         frames = [rand_frame(rng, i, inp["fmt"]) for i in range(inp["n"])]
